@@ -146,9 +146,15 @@ def build_model(kind, spec):
     else:
         from taurex.model import EmissionModel
         m = EmissionModel(ngauss=int(spec.get('ngauss', 4)), **kw)
-    m.add_contribution(AbsorptionContribution())
-    if spec.get('cia'):
+    # insertion order is kept by build() (stable sort on equal `order`): with `cia_first` the collision-induced
+    # absorption is already in tau[layer] when the molecular (cross-section or k-table) kernel adds its part
+    if spec.get('cia') and spec.get('cia_first'):
         m.add_contribution(CIAContribution(cia_pairs=list(spec['cia'])))
+        m.add_contribution(AbsorptionContribution())
+    else:
+        m.add_contribution(AbsorptionContribution())
+        if spec.get('cia'):
+            m.add_contribution(CIAContribution(cia_pairs=list(spec['cia'])))
     m.build()
     return m
 
